@@ -268,6 +268,8 @@ class Explorer:
             # the same target is tried instead of inlining (exclusion by target name still means: inline)
             cur = self.current
             cands = [c for c in cands if c.name not in cur.no_use and (cur.use is None or c.name in cur.use or c.short in cur.use)]
+            # helper contracts marked options={'local': True} serve only the contracts of their own module
+            cands = [c for c in cands if self._local_ok(c, here)]
         for c in cands:
             ok = True
             for p_, tstr in c.params.items():
@@ -281,6 +283,17 @@ class Explorer:
                 return c
         return None
 
+    @staticmethod
+    def _local_ok(c, here):
+        """options={'local': True} -- only contracts of the same module may use c; {'local': 'contracts.c14'} -- only
+        contracts of modules with that name prefix"""
+        loc = c.opts.get('local')
+        if not loc:
+            return True
+        if here is None:
+            return False
+        return here == c.ci.module.name if loc is True else here.startswith(loc)
+
     def contract_for(self, info: FunctionInfo, P=None, args=None, kwargs=None):
         c = self.by_target.get(info.qualname)
         if c is None:
@@ -291,6 +304,8 @@ class Explorer:
                 return None
         cur = self.current
         if c.inline:
+            return None
+        if not self._local_ok(c, cur.ci.module.name if cur is not None else None):
             return None
         if cur is not None:
             if cur.use is not None and c.name not in cur.use and c.short not in cur.use:
